@@ -289,7 +289,7 @@ class Language(metaclass=abc.ABCMeta):
 
             return (module_name, (0, 0, 0), None)
 
-    @functools.lru_cache()
+    # Not cached: pydsdl types that compare equal can still differ in their attributes (an edited definition).
     def get_dependency_builder(self, for_type: pydsdl.Any) -> DependencyBuilder:
         """
         Get a dependency builder for the given type.
